@@ -199,7 +199,8 @@ func (s *Stream) SetReadDeadline(deadline time.Time) error {
 				s.readTimeoutCancel = nil
 				s.lock.Unlock()
 
-				s.readNotifier.Signal()
+				// the deadline applies to every read that is blocked on this stream
+				s.readNotifier.Broadcast()
 			}
 		}(s.readTimeoutCancel)
 	}
